@@ -338,11 +338,15 @@ func CheckC14(r *Report) {
 			continue
 		}
 		t0 := time.Now()
-		cfg := explore.Config{Name: "C14/" + c14RealName(rr.kind, st), Preemptions: 2, HBCache: rr.kind == "memory", Deadline: r.Deadline, MaxViolations: 50}
+		cfg := explore.Config{Name: "C14/" + c14RealName(rr.kind, st), Preemptions: 2, HBCache: rr.kind == "memory", Deadline: r.Deadline, MaxViolations: 50,
+			SigFilter: func(sig string) bool { return !strings.HasPrefix(sig, "C03:") }}
 		res := explore.Explore(cfg, c14RealBody(rr.kind, st, 2))
 		seen := map[string]bool{}
 		var keep []explore.Violation
 		for _, v := range res.Violations {
+			if strings.HasPrefix(v.Sig, "C03:") {
+				continue
+			}
 			if !seen[v.Sig] {
 				seen[v.Sig] = true
 				keep = append(keep, v)
@@ -547,6 +551,11 @@ func c14RealBody(kind, start string, nprocs int) explore.Body {
 						who = "a fresh process"
 					}
 					c.Failf("peer-cannot-decrypt", "%s cannot decrypt the record of process %d: %v; calls: %s", who, i+1, err, trail())
+					if q == cold {
+						if ik, lerr := real.Load(ctx, rec.Key.ParentKeyMeta.ID, rec.Key.ParentKeyMeta.Created); lerr == nil && ik != nil {
+							c.Failf("C03:record-not-under-the-stored-keys", "the record of process %d names %s/%d, which is in the metastore, but the stored key chain does not open it (%v): the data key was wrapped under another key than the one stored under that name; calls: %s", i+1, rec.Key.ParentKeyMeta.ID, rec.Key.ParentKeyMeta.Created, err, trail())
+						}
+					}
 				}
 			}
 		}
@@ -563,4 +572,189 @@ func c14RealName(kind, start string) string {
 		return "mem-2p-" + start
 	}
 	return kind + "-2p-" + start
+}
+
+// ---------------------------------------------------------------------------------
+// C02 (schedules): two sessions of ONE factory (different partitions) encrypt at the same time over one real
+// metastore object (memory, DynamoDB plugins): every record handed out names an intermediate key and a system key
+// that are in the store at that moment, and a fresh process decrypts it. Every interleaving up to the bound.
+// ---------------------------------------------------------------------------------
+
+func c02SchedBody(kind, start string) explore.Body {
+	return func(c *explore.Ctx) {
+		vsched.BeginQuiet()
+		reg := doubles.NewKeyRegistry()
+		real, _ := c14RealStore(kind)
+		st := &c14MemStore{mm: real}
+		kms := doubles.NewSpyKMS()
+		mk := func(name string) (*ae.SessionFactory, *doubles.TrackFactory) {
+			tf := doubles.NewTrackFactoryShared(reg, name)
+			return ae.NewSessionFactory(&ae.Config{Service: "s", Product: "p", Policy: SpecDefault.Build()}, st, kms, doubles.NewSpyAEAD(tf), ae.WithSecretFactory(tf)), tf
+		}
+		f, _ := mk("F")
+		parts := []string{"A", "B"}
+		sess := make([]*ae.Session, len(parts))
+		for i, p := range parts {
+			sess[i], _ = f.GetSession(p)
+		}
+		if start == "sk-exists" {
+			sc, _ := f.GetSession("C")
+			if _, err := sc.Encrypt(ctx, []byte("c")); err != nil {
+				panic(fmt.Sprintf("C02 set-up: %v", err))
+			}
+			sc.Close()
+		}
+		callsFrom := len(st.calls)
+		vsched.EndQuiet()
+		recs := make([]*ae.DataRowRecord, len(parts))
+		errs := make([]error, len(parts))
+		pans := make([]string, len(parts))
+		done := make([]bool, len(parts))
+		durable := make([]string, len(parts))
+		for i := range parts {
+			i := i
+			vsched.GoNamed("enc-"+parts[i], func() {
+				pans[i] = safe(func() { recs[i], errs[i] = sess[i].Encrypt(ctx, []byte("payload-"+parts[i])) })
+				if pans[i] == "" && errs[i] == nil {
+					// at the moment encrypt returns: the chain is in the store
+					rec := recs[i]
+					ik, err := real.Load(ctx, rec.Key.ParentKeyMeta.ID, rec.Key.ParentKeyMeta.Created)
+					switch {
+					case err != nil || ik == nil:
+						durable[i] = fmt.Sprintf("the intermediate key %s/%d it names is not in the metastore (%v)", rec.Key.ParentKeyMeta.ID, rec.Key.ParentKeyMeta.Created, err)
+					case ik.ParentKeyMeta == nil:
+						durable[i] = "the stored intermediate key names no system key"
+					default:
+						if sk, err := real.Load(ctx, ik.ParentKeyMeta.ID, ik.ParentKeyMeta.Created); err != nil || sk == nil {
+							durable[i] = fmt.Sprintf("the system key %s/%d its intermediate key names is not in the metastore (%v)", ik.ParentKeyMeta.ID, ik.ParentKeyMeta.Created, err)
+						}
+					}
+				}
+				done[i] = true
+			})
+		}
+		vsched.Quiesce()
+		vsched.BeginQuiet()
+		defer vsched.EndQuiet()
+		trail := func() string {
+			var sb strings.Builder
+			for _, cl := range st.calls[callsFrom:] {
+				fmt.Fprintf(&sb, "T%d:%s(%s/%d)=%v; ", cl.Thread, cl.Op, cl.ID, cl.Created, cl.OK)
+			}
+			return sb.String()
+		}
+		cold, _ := mk("cold")
+		var outcome []string
+		for i, p := range parts {
+			switch {
+			case !done[i]:
+				c.Failf("C02:blocked", "the encrypt of partition %s never returned; parked: %v", p, vsched.Blocked())
+				return
+			case pans[i] != "":
+				c.Failf("C02:panic", "the encrypt of partition %s panicked: %s", p, pans[i])
+				continue
+			case errs[i] != nil:
+				c.Failf("C02:encrypt-failed:"+errClass(errs[i]), "the encrypt of partition %s failed although metastore and KMS are healthy: %v; calls: %s", p, errs[i], trail())
+				continue
+			}
+			if durable[i] != "" {
+				c.Failf("C02:chain-not-durable", "encrypt returned a record for partition %s but %s; calls: %s", p, durable[i], trail())
+			}
+			cs, _ := cold.GetSession(p)
+			out, err := cs.Decrypt(ctx, *cloneDRR(recs[i]))
+			cs.Close()
+			if err != nil || !bytes.Equal(out, []byte("payload-"+p)) {
+				c.Failf("C02:fresh-process-cannot-decrypt", "a fresh process holding only the metastore and the KMS cannot decrypt the record of partition %s: %v; calls: %s", p, err, trail())
+				if durable[i] == "" {
+					// the rows named by the record exist, yet they do not open it: the data key is not wrapped under the
+					// intermediate key stored under that name (or that key not under the stored system key)
+					c.Failf("C03:record-not-under-the-stored-keys", "the record of partition %s names %s/%d, which is in the metastore, but the stored key chain does not open it (%v): the data key was wrapped under another key; calls: %s", p, recs[i].Key.ParentKeyMeta.ID, recs[i].Key.ParentKeyMeta.Created, err, trail())
+				}
+			}
+			outcome = append(outcome, fmt.Sprintf("%s:ik%d", p, recs[i].Key.ParentKeyMeta.Created))
+		}
+		c.Outcome(strings.Join(outcome, ","))
+		for _, s := range sess {
+			s.Close()
+		}
+		f.Close()
+		cold.Close()
+	}
+}
+
+type c02SchedCase struct{ kind, start string }
+
+func c02SchedCases(thorough bool) []c02SchedCase {
+	out := []c02SchedCase{{"dynamodb-v2", "cold"}, {"dynamodb-v1", "cold"}, {"dynamodb-v2", "sk-exists"}, {"memory", "cold"}}
+	if thorough {
+		out = append(out, c02SchedCase{"dynamodb-v1", "sk-exists"}, c02SchedCase{"dynamodb-deprecated", "cold"}, c02SchedCase{"memory", "sk-exists"})
+	}
+	return out
+}
+
+func c02Sched(r *Report) { c02SchedFor(r, "C02") }
+
+// c02SchedFor runs the schedules and keeps the failures of one property.
+func c02SchedFor(r *Report, prop string) {
+	for _, cs := range c02SchedCases(r.Thorough()) {
+		name := "C02s/" + cs.kind + "-2-partitions-" + cs.start
+		if !r.TimeLeft() {
+			r.Exhaustive = false
+			r.Caps = append(r.Caps, name+": not started (time budget)")
+			continue
+		}
+		t0 := time.Now()
+		cfg := explore.Config{Name: name, Preemptions: 2, HBCache: cs.kind == "memory", Deadline: r.Deadline, MaxViolations: 20,
+			SigFilter: func(sig string) bool { return strings.HasPrefix(sig, prop+":") }}
+		res := explore.Explore(cfg, c02SchedBody(cs.kind, cs.start))
+		seen := map[string]bool{}
+		var keep []explore.Violation
+		for _, v := range res.Violations {
+			if !strings.HasPrefix(v.Sig, prop+":") && v.Sig != "panic" && v.Sig != "deadlock" {
+				continue
+			}
+			if !seen[v.Sig] {
+				seen[v.Sig] = true
+				keep = append(keep, v)
+			}
+		}
+		res.Violations = keep
+		r.AddExplore(res, "preemptions <= 2 (SDK synchronisation + metastore transport)", time.Since(t0).Seconds())
+		r.DistinctNontrivial += res.Complete
+	}
+}
+
+func c02SchedReplayBody(h string) explore.Body {
+	for _, cs := range c02SchedCases(true) {
+		if h == "C02s/"+cs.kind+"-2-partitions-"+cs.start {
+			return c02SchedBody(cs.kind, cs.start)
+		}
+	}
+	return nil
+}
+
+// c03RealRace runs the creators' race over the real metastore objects for C03: a record whose named rows exist in the
+// store must be opened by that stored chain.
+func c03RealRace(r *Report) {
+	for _, rr := range []struct{ kind, start string }{{"dynamodb-v2", "cold"}, {"dynamodb-v1", "cold"}, {"dynamodb-v2", "expired"}, {"memory", "cold"}} {
+		if !r.TimeLeft() {
+			r.Exhaustive = false
+			r.Caps = append(r.Caps, "C03r/"+c14RealName(rr.kind, rr.start)+": not started (time budget)")
+			continue
+		}
+		t0 := time.Now()
+		cfg := explore.Config{Name: "C14/" + c14RealName(rr.kind, rr.start), Preemptions: 2, HBCache: rr.kind == "memory", Deadline: r.Deadline, MaxViolations: 20,
+			SigFilter: func(sig string) bool { return strings.HasPrefix(sig, "C03:") }}
+		res := explore.Explore(cfg, c14RealBody(rr.kind, rr.start, 2))
+		seen := map[string]bool{}
+		var keep []explore.Violation
+		for _, v := range res.Violations {
+			if strings.HasPrefix(v.Sig, "C03:") && !seen[v.Sig] {
+				seen[v.Sig] = true
+				keep = append(keep, v)
+			}
+		}
+		res.Violations = keep
+		r.AddExplore(res, "preemptions <= 2 at any synchronisation / transport point", time.Since(t0).Seconds())
+	}
 }
